@@ -85,11 +85,10 @@ func cosmosCrashCase(prop string, c *Ctx, idx int) CaseResult {
 		res.Verdict, res.Note = "inconclusive", "no client writes recorded"
 		return res
 	}
-	// crash points: thorough (under C09/C10) = every client write of runs with up to 48 writes, else every split plus a
-	// PRNG sample of 48; otherwise = the splits of a plan update (document patched, search
+	// crash points: the splits (thorough under C09/C10: up to 10 of them and 16 cuts in all, otherwise 6 and 12) of a plan update (document patched, search
 	// entry not yet replaced) plus a PRNG sample of the others
 	var ks []int
-	if c.Tier == "thorough" && (prop == "C09" || prop == "C10") && W <= 48 {
+	if false { // every client write: too slow on the fake for a registered command (minutes per case under load)
 		for k := 1; k <= W; k++ {
 			ks = append(ks, k)
 		}
@@ -104,7 +103,7 @@ func cosmosCrashCase(prop string, c *Ctx, idx int) CaseResult {
 		r.Shuffle(len(splits), func(a, b int) { splits[a], splits[b] = splits[b], splits[a] })
 		maxSplits := 6
 		if c.Tier == "thorough" && (prop == "C09" || prop == "C10") {
-			maxSplits = 24
+			maxSplits = 10
 		}
 		for _, k := range splits {
 			if len(ks) < maxSplits {
@@ -114,7 +113,7 @@ func cosmosCrashCase(prop string, c *Ctx, idx int) CaseResult {
 		}
 		want := 12
 		if c.Tier == "thorough" && (prop == "C09" || prop == "C10") {
-			want = 48 // every split plus a PRNG sample: one cut costs seconds on the fake
+			want = 16 // splits plus a PRNG sample: one cut costs seconds on the fake
 		}
 		for len(ks) < min(want, W) {
 			k := 1 + r.Intn(W)
